@@ -167,8 +167,22 @@ class C08(Prop):
         subs = [leaf([kind]) for _ in range(nsub)]
         if len({s[1].ref for s in subs}) != 1:
             subs = [subs[0]] * nsub
-        pat = rng.choice(["sym22", "vec3", "any22"])
-        if pat == "sym22":
+        pat = rng.choice(["sym22", "vec3", "any22", "permvec", "perm22"])
+        if pat in ("permvec", "perm22"):
+            # a BIJECTIVE renumbering other than row-major (reference and physical shapes agree in size; only the order differs)
+            nsub = 3 if pat == "permvec" else 4
+            kind = rng.choice(["id", "id", "l2", "contra"]) if pat == "permvec" else "id"
+            subs = [leaf([kind]) for _ in range(nsub)]
+            if len({s_[1].ref for s_ in subs}) != 1:
+                subs = [subs[0]] * nsub
+            keys = [(0,), (1,), (2,)] if pat == "permvec" else [(0, 0), (0, 1), (1, 0), (1, 1)]
+            perm = list(range(nsub))
+            while perm == list(range(nsub)):
+                rng.shuffle(perm)
+            if pat == "perm22" and rng.random() < 0.5:
+                perm = [0, 2, 1, 3]                     # column-major
+            m = dict(zip(keys, perm))
+        elif pat == "sym22":
             m = {(0, 0): 0, (0, 1): 1, (1, 0): 1, (1, 1): (2 if nsub > 2 else 0)}
         elif pat == "vec3":
             m = {(0,): 0, (1,): nsub - 1, (2,): rng.randrange(nsub)}
